@@ -87,6 +87,49 @@ pub fn parse_query(q: &str) -> Option<(Vec<(String, String)>, bool)> {
     Some((v, has_plus))
 }
 
+/// HTTP/2 carries the host in the request target (`:authority`); a request without a Host header is signed with
+/// that authority as its `host` header.  Returns the request in the equivalent HTTP/1.1 form (origin-form target,
+/// Host header) - what the reference signers and verifiers work on.  A request that already has a Host header, or
+/// whose target has no authority, is returned unchanged.
+pub fn http1_form(req: &RawRequest) -> RawRequest {
+    let mut r = req.clone();
+    if r.get_header("host").is_some() {
+        // the target may still be in absolute form: the path and query are what is signed
+        if let Some(rest) = r.uri.strip_prefix("http://").or_else(|| r.uri.strip_prefix("https://")) {
+            let at = rest.find(['/', '?']).unwrap_or(rest.len());
+            let tail = &rest[at..];
+            r.uri = if tail.starts_with('/') { tail.to_owned() } else { format!("/{tail}") };
+        }
+        return r;
+    }
+    let Some(rest) = r.uri.strip_prefix("http://").or_else(|| r.uri.strip_prefix("https://")).map(str::to_owned) else { return r };
+    let at = rest.find(['/', '?']).unwrap_or(rest.len());
+    let (authority, tail) = rest.split_at(at);
+    if authority.is_empty() {
+        return r;
+    }
+    r.headers.push(("host".into(), authority.as_bytes().to_vec()));
+    r.uri = if tail.starts_with('/') { tail.to_owned() } else { format!("/{tail}") };
+    r.http2 = false;
+    r
+}
+
+/// the HTTP/2 form of an origin-form request with one Host header: authority in the target, no Host header
+pub fn to_http2(req: &mut RawRequest) -> bool {
+    let hosts: Vec<Vec<u8>> = req.headers.iter().filter(|(k, _)| k.eq_ignore_ascii_case("host")).map(|(_, v)| v.clone()).collect();
+    if hosts.len() != 1 || !req.uri.starts_with('/') {
+        return false;
+    }
+    let Ok(h) = String::from_utf8(hosts[0].clone()) else { return false };
+    if h.is_empty() || h.contains(['/', '?', '#', ' ', '@']) {
+        return false;
+    }
+    req.headers.retain(|(k, _)| !k.eq_ignore_ascii_case("host"));
+    req.uri = format!("http://{h}{}", req.uri);
+    req.http2 = true;
+    true
+}
+
 pub fn split_uri(uri: &str) -> (&str, Option<&str>) {
     match uri.split_once('?') {
         Some((p, q)) => (p, Some(q)),
@@ -311,6 +354,7 @@ pub fn valid_amz_date(s: &str) -> bool {
 /// Reference verdict for a request carrying a SigV4 Authorization header.
 /// `secret_of`: the provider's secret for an access key.
 pub fn v4_verify_header(req: &RawRequest, secret_of: &dyn Fn(&str) -> Option<String>) -> Expect {
+    let req = &http1_form(req);
     let auths: Vec<&(String, Vec<u8>)> = req.headers.iter().filter(|(k, _)| k.eq_ignore_ascii_case("authorization")).collect();
     if auths.len() != 1 {
         return Expect::Unspecified("not exactly one Authorization header".into());
@@ -355,8 +399,8 @@ pub fn v4_verify_header(req: &RawRequest, secret_of: &dyn Fn(&str) -> Option<Str
             return Expect::Unspecified("an x-amz-* header is not signed".into());
         }
     }
-    if req.http2 || req.get_header("host").is_none() {
-        return Expect::Unspecified("no Host header (HTTP/2 authority form)".into());
+    if req.get_header("host").is_none() {
+        return Expect::Unspecified("neither a Host header nor an authority in the request target".into());
     }
     let Some(secret) = secret_of(&a.access_key) else { return Expect::Reject("unknown access key".into()) };
     // payload
@@ -462,6 +506,7 @@ pub fn unix_to_amz_date(t: i64) -> String {
 pub fn v4_verify_presigned(req: &RawRequest, secret_of: &dyn Fn(&str) -> Option<String>) -> PresignFacts {
     let rej = |s: &str| PresignFacts { expect: Expect::Reject(s.into()), t_sign: None, expires: None };
     let uns = |s: &str| PresignFacts { expect: Expect::Unspecified(s.into()), t_sign: None, expires: None };
+    let req = &http1_form(req);
     let (path, q) = split_uri(&req.uri);
     if pct_decode(path).is_none() {
         return rej("malformed percent escape in the path");
@@ -523,8 +568,8 @@ pub fn v4_verify_presigned(req: &RawRequest, secret_of: &dyn Fn(&str) -> Option<
             return mk(Expect::Unspecified("SignedHeaders not lower-case, sorted and unique".into()));
         }
     }
-    if req.http2 || req.get_header("host").is_none() {
-        return mk(Expect::Unspecified("no Host header".into()));
+    if req.get_header("host").is_none() {
+        return mk(Expect::Unspecified("neither a Host header nor an authority in the request target".into()));
     }
     if req.headers.iter().any(|(k, _)| k.eq_ignore_ascii_case("authorization")) {
         return mk(Expect::Unspecified("both Authorization header and presign parameters".into()));
